@@ -471,6 +471,49 @@ def rule_dispatch(ctx: Ctx, repo: Repo) -> None:
                   "the profile function returns itself (stays installed)", construct=f"{event}: returns {term}")
 
 
+def rule_no_residue_on_failure(ctx: Ctx, repo: Repo) -> None:
+    """R-C02.11: "afterwards the tracer keeps no per-call state" also when collecting the type of the returned value fails (a
+    container that holds itself: RecursionError; a class whose introspection raises): at every event that ENDS a frame -
+    value return, exception exit - the in-flight entry of the frame is gone when handle_return is left, whether get_type
+    returned or raised.  (The failure itself is contained by the profile function, R-C03.2; the frame never comes back, so an
+    entry left behind stays for the life of the tracer, together with the frame and everything it references.)"""
+    from mtsa.absint import raise_exc
+    ret_points, _ = corpus_points()
+    fi = repo.method(repo.cls(M, "CallTracer"), "handle_return")
+    ctx.functions.add(fi.fq)
+    params = fi.positional_params()
+    n = 0
+    for p in ret_points:
+        if p.kind not in ("return", "exception"):
+            continue
+        sc = TracerScenario(repo, "handle_return", {}, trace_in_table=_trace())
+        base = sc.ri.call_hook
+
+        def hook(call, fname, fval, args, kwargs, st, _b=base, _sc=sc):
+            callee = None
+            try:
+                callee = _sc.ri.resolve(call, fval)
+            except Exception:
+                callee = None
+            if callee is not None and callee.qualname.split(".")[-1] == "get_type":
+                raise_exc(st, "RecursionError")
+                return U("get_type failed")
+            return _b(call, fname, fval, args, kwargs, st)
+
+        sc.ri.call_hook = hook
+        outs = sc.run({params[1]: frame_value(p), params[2]: S("arg")})
+        if len(outs) != 1:
+            raise AnalysisError(f"handle_return: {len(outs)} outcomes with a failing get_type")
+        effs = relevant(outs[0].effects)
+        dels = [e for e in effs if e[0] == "delitem" and e[1] == "self.traces"]
+        n += 1
+        ctx.check(len(dels) == 1, "R-C02.11", fi.fq,
+                  "when a frame ends, its in-flight entry is removed whether or not the type of the returned value could be collected",
+                  construct=f"{p.kind}@{p.opname}: get_type raises RecursionError (the value holds itself): {'the entry stays in self.traces' if not dels else dels}; effects {_kinds(effs)}",
+                  point=p.label())
+    ctx.floor("R-C02.11", "frame-ending events with a failing type collection", n, 20)
+
+
 def run(ctx: Ctx, repo: Repo, tier: str) -> None:
     ctx.trust(*TRUSTED)
     ctx.assume("sys.setprofile delivers one 'call' per frame entry/resumption and one 'return' per exit/suspension")
@@ -479,6 +522,7 @@ def run(ctx: Ctx, repo: Repo, tier: str) -> None:
     ctx.attempt(rule_attribution, ctx, repo)
     ctx.attempt(rule_arg_capture, ctx, repo)
     ctx.attempt(rule_no_overwrite, ctx, repo)
+    ctx.attempt(rule_no_residue_on_failure, ctx, repo)
     ctx.attempt(rule_dispatch, ctx, repo)
     from .memo_rules import tracer_no_memory
     ctx.attempt(tracer_no_memory, ctx, repo, "R-C02.8")
